@@ -230,3 +230,71 @@ def run_workload(name: str, root: Path, inputs: Path) -> None:
 
 if __name__ == "__main__":
     run_workload(sys.argv[1], Path(sys.argv[2]), Path(sys.argv[3]))
+
+
+# ---------------------------------------------------------------------------
+# a strip of many small patches: which patch pairs are linked depends on the
+# largest angle of the configuration (physical scales: on the lowest redshift)
+# ---------------------------------------------------------------------------
+STRIP_NPATCH = 6
+STRIP_CONFIGS = {
+    "hi": dict(edges=[0.7, 0.85, 1.0]),     # 2 Mpc ~ 0.07 deg: only neighbouring patches are linked
+    "lo": dict(edges=[0.1, 0.2, 0.3]),      # 2 Mpc ~ 0.2-0.3 deg: patches two and three apart are linked, too
+}
+
+
+def strip_frames():
+    import pandas as pd
+
+    out = {}
+    for which, seed, n in (("data", 31, 14), ("rnd", 32, 20)):
+        rng = np.random.default_rng(seed)
+        pid = np.repeat(np.arange(STRIP_NPATCH), n)
+        out[which] = pd.DataFrame(dict(ra=20.0 + 0.1 * pid + rng.uniform(-0.03, 0.03, len(pid)), dec=rng.uniform(-0.03, 0.03, len(pid)),
+                                       w=rng.integers(1, 4, len(pid)).astype(float), z=rng.uniform(0.1, 1.0, len(pid)), pid=pid))
+    return out
+
+
+def strip_make(root):
+    root = Path(root)
+    centers = data.import_yaw().AngularCoordinates(np.deg2rad([[20.0 + 0.1 * k, 0.0] for k in range(STRIP_NPATCH)]))
+    fr = strip_frames()
+    for which in ("data", "rnd"):
+        data.make_catalog(root / which, fr[which], centers)
+    return root
+
+
+def strip_measure(root, name):
+    yaw = data.import_yaw()
+    root = Path(root)
+    cfg = yaw.Configuration.create(rmin=100.0, rmax=2000.0, unit="kpc", **STRIP_CONFIGS[name])
+    cat = yaw.Catalog(root / "data", max_workers=1)
+    rnd = yaw.Catalog(root / "rnd", max_workers=1)
+    (cf,) = yaw.autocorrelate(cfg, cat, rnd, count_rr=True, max_workers=1)
+    return _jsonable(data.corrfunc_fingerprint(cf))
+
+
+def strip_fresh_process(src_root, names, scratch_dir) -> dict:
+    """strip_measure(name) in a NEW interpreter on a fresh copy of the strip world, per name."""
+    import shutil
+    import subprocess
+    from concurrent.futures import ThreadPoolExecutor
+
+    verif = str(Path(__file__).resolve().parent.parent)
+
+    def one(name):
+        dst = Path(scratch_dir) / f"stripfresh_{name}"
+        if dst.exists():
+            shutil.rmtree(dst)
+        for which in ("data", "rnd"):
+            data.copy_cache(Path(src_root) / which, dst / which)
+        code = ("import sys, json; sys.path.insert(0, %r); from harness import cachework as cw; "
+                "print('REFJSON' + json.dumps(cw.strip_measure(%r, %r)))" % (verif, str(dst), name))
+        r = subprocess.run([sys.executable, "-c", code], capture_output=True, text=True, timeout=600)
+        for line in r.stdout.splitlines():
+            if line.startswith("REFJSON"):
+                return name, json.loads(line[7:])
+        return name, ("error", (r.stderr or r.stdout)[-400:])
+
+    with ThreadPoolExecutor(max_workers=4) as ex:
+        return dict(ex.map(one, names))
